@@ -312,7 +312,7 @@ pub fn run(ctx: &RunCtx) -> i32 {
         min_cells: 60,
         exhaustive: false,
     };
-    let rounds = ctx.tier.sz(2, 60);
+    let rounds = ctx.tier.sz(6, 300);
     let total = par_run(ctx.workers.min(8), rounds * KEY_OPS.len() as u64 + rounds, |j, r| {
         let rt = new_runtime_real();
         let mut g = Rng::new(derive_seed(ctx.seed, "C17", j));
